@@ -1,7 +1,7 @@
 """C03 — linearizability: strict two-phase locking theorem + discipline predicates on every transaction + linearizability search."""
 import concengine
 TRUSTED = ['goroutine schedules are sampled (seeded yields/sleeps at the hook points), not enumerated: partial by nature',
-           'per-entry attributes of one READDIRPLUS reply are treated as separate reads (open finding F33)']
+           'a history that fails only because one READDIRPLUS reply mixes the attributes of its entries from different moments is reported as the open finding F33 (the driver re-searches with those attributes left out; the verdict of the first search stands)']
 ASSUMPTIONS = ['histories of up to 4 clients x 8 operations; the search has a node budget (exhaustion is reported, not counted as success)']
 
 
